@@ -234,6 +234,8 @@ def product_cases(tier):
             if tier == 'quick' and forest == (None, None, None):
                 continue    # three unrelated singletons add nothing over the one-component cases
             for chans in itertools.product(CHANNELS, repeat=n):
+                if tier == 'quick' and n == 3 and chans[2] == 'b':
+                    continue    # quick: the third component only on '*' or 'a' (all 27 combinations in thorough)
                 for m in itertools.product(menu, repeat=n):
                     yield forest, chans, m
 
